@@ -20,6 +20,7 @@
 
   All statements are about the model `MF.Split.split` of split.go over the model of the lexer.
 -/
+import MF.Props.C12
 import MF.Proofs.SplitTokens
 namespace MF.Props.C12
 open MF MF.Lex MF.Split
